@@ -174,8 +174,47 @@ upper_public!(v2_public_prelude, (all(feature = "v2_public", feature = "batterie
 upper_public!(v3_public_prelude, (all(feature = "v3_public", feature = "batteries_included")), prelude, PasetoBuilder, PasetoParser, build, V3, [.set_implicit_assertion(ImplicitAssertion::from(ASSERT))]);
 upper_public!(v4_public_prelude, (any(all(feature = "v4_public", feature = "batteries_included"), feature = "crate_default")), prelude, PasetoBuilder, PasetoParser, build, V4, [.set_implicit_assertion(ImplicitAssertion::from(ASSERT))]);
 
+/// client idioms around the error types: `?` into `Box<dyn Error + Send + Sync>` (what anyhow, eyre and
+/// `io::Error::new` need), an error returned from a spawned thread, `to_string()` for logging
+#[cfg(any(feature = "v1_local", feature = "v2_local", feature = "v3_local", feature = "v4_local", feature = "v1_public", feature = "v2_public", feature = "v3_public", feature = "v4_public", feature = "crate_default"))]
+mod error_idioms {
+    fn wants<E: std::error::Error + Send + Sync + 'static>() {}
+    fn boxed<E: std::error::Error + Send + Sync + 'static>(e: E) -> Box<dyn std::error::Error + Send + Sync> {
+        e.into()
+    }
+    fn io<E: std::error::Error + Send + Sync + 'static>(e: E) -> std::io::Error {
+        std::io::Error::new(std::io::ErrorKind::InvalidData, e)
+    }
+    fn through_thread<E: std::error::Error + Send + 'static>(e: E) -> String {
+        std::thread::spawn(move || e).join().map(|e| e.to_string()).unwrap_or_default()
+    }
+    pub fn core() -> usize {
+        use rusty_paseto::core::PasetoError;
+        wants::<PasetoError>();
+        let fns: (fn(PasetoError) -> Box<dyn std::error::Error + Send + Sync>, fn(PasetoError) -> std::io::Error, fn(PasetoError) -> String) = (boxed, io, through_thread);
+        std::mem::size_of_val(&fns)
+    }
+    #[cfg(any(feature = "generic", feature = "crate_default"))]
+    pub fn generic() -> usize {
+        use rusty_paseto::generic::{GenericBuilderError, GenericParserError, PasetoClaimError};
+        wants::<GenericBuilderError>();
+        wants::<GenericParserError>();
+        wants::<PasetoClaimError>();
+        let a: (fn(GenericBuilderError) -> Box<dyn std::error::Error + Send + Sync>, fn(GenericBuilderError) -> std::io::Error, fn(GenericBuilderError) -> String) = (boxed, io, through_thread);
+        let b: (fn(GenericParserError) -> Box<dyn std::error::Error + Send + Sync>, fn(GenericParserError) -> std::io::Error, fn(GenericParserError) -> String) = (boxed, io, through_thread);
+        let c: (fn(PasetoClaimError) -> Box<dyn std::error::Error + Send + Sync>, fn(PasetoClaimError) -> std::io::Error, fn(PasetoClaimError) -> String) = (boxed, io, through_thread);
+        std::mem::size_of_val(&a) + std::mem::size_of_val(&b) + std::mem::size_of_val(&c)
+    }
+}
+
 fn main() {
     let mut ran = 0usize;
+    #[cfg(any(feature = "v1_local", feature = "v2_local", feature = "v3_local", feature = "v4_local", feature = "v1_public", feature = "v2_public", feature = "v3_public", feature = "v4_public", feature = "crate_default"))]
+    {
+        let _ = error_idioms::core();
+        #[cfg(any(feature = "generic", feature = "crate_default"))]
+        let _ = error_idioms::generic();
+    }
     let mut failed = false;
     macro_rules! run {
         ($f:ident, $proto:literal, $layer:literal, $($cfg:tt)*) => {
